@@ -41,6 +41,12 @@ Theorem c09_caller_writes_do_not_matter :
     = session packet parse ver_of is_keepalive version m verify pong (reads ops) buf tr.
 Proof. exact conv_reads. Qed.
 
+(* the connection structs of the source have exactly the fields the models carry as state (regenerated field
+   names): receive buffer + verification flag; the tokio one also the outstanding reply and its packet *)
+Theorem c09_model_state_is_the_struct : state_tied = true.
+Proof. vm_compute. reflexivity. Qed.
+
+
 Example c09_example :
   run_session Uncompressed true [([2;0;0;8], (0, CVer 8)); ([2;0;0;9], (1, CVer 9))]
     [Data [5;2;0;0;8;5;2;0;0;9]; Eof]
